@@ -8,6 +8,7 @@ R16.3 line re-assembly keeps what the split produced: for every way parse_itp_li
       with that newline (sections are serialised by joining with the empty string, so a line that
       loses its terminator fuses with the next one) and that omits the content / the comment only
       when that part is empty
+R16.5 reading/writing a topology file keeps no table between calls (no cached file text)
 """
 from __future__ import annotations
 
